@@ -69,7 +69,8 @@ Tgt(H, d) == d # 0 /\ d = H.tgt
 \*   target : node id of the completed, not yet delivered target instance (0 = none)
 \*   nodes  : Seq([d, u, par])  arena in creation order; node 1 is the root document node
 \*   gone   : node ids removed from the tree (released)
-\*   out    : delivered instances, each a pre-order sequence of <<d, u, depth>>
+\*   out    : delivered instances, each a pre-order sequence of <<d, u, depth, e>>: declaration, first unit,
+\*            depth below the instance root, last unit (u = e = 0 for a group)
 \*   status : "run" | "eof" | "min" | "unexpected";  errd: declaration whose minimum is unmet
 \*   panic  : name of a panic guard of the code that would have fired ("" = none)
 
@@ -124,7 +125,8 @@ DepthTo(nodes, i, t) ==
 \* pre-order encoding of the subtree below node t (creation order is document order)
 SubtreeEnc(nodes, t) ==
   LET ids == SelectSeq([i \in 1..Len(nodes) |-> i], LAMBDA i: i >= t /\ DepthTo(nodes, i, t) >= 0)
-  IN [k \in 1..Len(ids) |-> <<nodes[ids[k]].d, nodes[ids[k]].u, DepthTo(nodes, ids[k], t)>>]
+  IN [k \in 1..Len(ids) |-> <<nodes[ids[k]].d, nodes[ids[k]].u, DepthTo(nodes, ids[k], t),
+                               IF nodes[ids[k]].n = 0 THEN 0 ELSE nodes[ids[k]].u + nodes[ids[k]].n - 1>>]
 
 \* One iteration of the loop in Read (a pending target is handed out first: lines 51-53; the
 \* ingester's Release before the next Read removes it from the tree).
@@ -157,18 +159,18 @@ Step(H, in, s) ==
 -----------------------------------------------------------------------------
 (* Ref: recursive descent.  Results are records                              *)
 (*   [ok, pos, toks, outs, errd]                                            *)
-(* toks: pre-order tokens <<d, u, depth>> of everything matched by this     *)
+(* toks: pre-order tokens <<d, u, depth, e>> of everything matched by this     *)
 (* call; outs: completed target instances in order (also kept on failure:   *)
 (* they were delivered before the failure).                                 *)
 
-Norm(toks) == [k \in 1..Len(toks) |-> <<toks[k][1], toks[k][2], toks[k][3] - toks[1][3]>>]
+Norm(toks) == [k \in 1..Len(toks) |-> <<toks[k][1], toks[k][2], toks[k][3] - toks[1][3], toks[k][4]>>]
 
 RECURSIVE RefSeq(_, _, _, _, _, _), RefRepeat(_, _, _, _, _, _), RefInst(_, _, _, _, _)
 
 \* one instance of declaration d starting at unit pos (caller established MatchesAt)
 RefInst(H, in, d, pos, depth) ==
   LET leaf == ~H.grp[d]
-      self == <<d, IF leaf THEN pos ELSE 0, depth>>
+      self == <<d, IF leaf THEN pos ELSE 0, depth, IF leaf THEN pos + Consumed(H, in, d, pos) - 1 ELSE 0>>
       r    == RefSeq(H, in, Kids(H, d), 1, IF leaf THEN pos + Consumed(H, in, d, pos) ELSE pos, depth + 1)
       toks == <<self>> \o r.toks
   IN IF ~r.ok THEN [r EXCEPT !.toks = toks]
